@@ -321,6 +321,29 @@ theorem C01_episode_contract (sem : Sem σ Act Req Resp) (order : List Nat) (hnd
   have := congrArg List.length hts
   simpa [tsOf] using this
 
+/-- `info["agent_actions"][name] = agent.history[-1]` is well defined after every step and names the item of THIS
+step: from a state satisfying the invariant, after `envStep` every agent's history is non-empty and its last item is
+stamped with the tick the step started at. -/
+theorem C01_info_last_item (sem : Sem σ Act Req Resp) (order : List Nat) (hnd : order.Nodup)
+    (g : Game σ Req Resp) (h : Inv g) (a : Act) :
+    ∀ ag ∈ (envStep sem order g a).1.agents, ∃ it, ag.hist.getLast? = some it ∧ it.timestep = g.step := by
+  intro ag hag
+  have hI := envStep_inv sem order hnd g a h
+  have hts := hI.ts ag hag
+  have hstep : (envStep sem order g a).1.step = g.step + 1 := (envStep_step sem order g a).1
+  rw [hstep, List.range_succ] at hts
+  unfold tsOf at hts
+  cases hl : ag.hist.getLast? with
+  | none =>
+    have : ag.hist = [] := List.getLast?_eq_none_iff.mp hl
+    rw [this] at hts; simp at hts
+  | some it =>
+    refine ⟨it, rfl, ?_⟩
+    obtain ⟨pre, hp⟩ := hist_split ag.hist it hl
+    rw [hp, List.map_append] at hts
+    have := congrArg List.getLast? hts
+    simpa using this
+
 /-- Whole-run form of the truncation clause, including steps taken AFTER truncation: from a reset, the k-th step of the
 episode (k = number of steps taken, this one included) reports `truncated` iff k ≥ max — so once the maximum has been
 reached every further step of the same episode reports it again. -/
@@ -527,7 +550,9 @@ open Primaite.Gen.Episode in
 /-- The order of calls in `PrimaiteGymEnv.step`, `advance_timestep`, `apply_agent_actions`, `update_agents` and
 `reset`, the comparator of `calculate_truncated`, the literal `terminated = False` and the single history append are
 the ones `envStep` / `envReset` model; `PrimaiteRayMARLEnv.step/reset` call the same game methods in the same order
-(that is what the rig's driver for scenarios with several RL agents mirrors). -/
+(that is what the rig's driver for scenarios with several RL agents mirrors); `PrimaiteGame.step` (scripted agents
+only) is the same sequence without the stored action, plus an observation update at tick 0 that the bookkeeping does
+not see. -/
 theorem C01_gen_pipeline :
     stepPipeline = ["store_action", "pre_timestep", "apply_agent_actions", "advance_timestep", "get_sim_state",
                     "update_agents", "_get_obs", "calculate_truncated"] ∧
@@ -540,8 +565,11 @@ theorem C01_gen_pipeline :
                      "get_sim_state", "update_agents", "_get_obs"] ∧
     terminatedLiteral = false ∧ historyAppendsPerResponse = 1 ∧
     (∀ s m : Nat, calculateTruncated s m = decide (s ≥ m)) ∧
-    marlStepPipeline = stepPipeline ∧ marlResetPipeline = resetPipeline ∧ marlTerminatedLiteral = false := by
-  refine ⟨by decide, by decide, by decide, by decide, by decide, by decide, by decide, ?_, by decide, by decide, by decide⟩
+    marlStepPipeline = stepPipeline ∧ marlResetPipeline = resetPipeline ∧ marlTerminatedLiteral = false ∧
+    gameStepPipeline = ["pre_timestep", "if step_counter == 0", "get_sim_state", "update_observation",
+                        "apply_agent_actions", "advance_timestep", "get_sim_state", "update_agents"] := by
+  refine ⟨by decide, by decide, by decide, by decide, by decide, by decide, by decide, ?_, by decide, by decide, by decide,
+    by decide⟩
   intro s m
   unfold calculateTruncated
   by_cases h : s ≥ m <;> simp [h]
